@@ -24,9 +24,9 @@ RepIL     == {<<>>, <<<<1, 2>>>>, <<<<0, 0>>, <<7, 1>>>>, <<<<1, 0>>, <<0, 1>>, 
               <<<<1, 1>>, <<2, 2>>, <<0, 7>>, <<7, 0>>, <<1, 7>>>>, <<<<0, 1>>, <<0, 2>>, <<0, 7>>, <<1, 0>>, <<2, 0>>, <<7, 0>>>>}
 (* representative contents for the second object in S->C runs *)
 RepOther  == {<<>>, <<<<1, 1>>>>, <<<<0, 0>>, <<0, 0>>, <<0, 0>>>>, <<<<1, 0>>, <<0, 1>>, <<1, 1>>>>, <<<<0, 1>>, <<1, 1>>, <<1, 0>>, <<0, 0>>>>}
-AllClasses == {"algo", "ctor", "il", "pair", "size", "at", "read", "write", "under", "iter", "misc"}
-NoPair     == {"algo", "ctor", "il", "size", "at", "read", "write", "under", "iter", "misc"}
+AllClasses == {"alias", "xassign", "algo", "ctor", "il", "pair", "size", "at", "read", "write", "under", "iter", "misc"}
+NoPair     == {"alias", "algo", "ctor", "il", "size", "at", "read", "write", "under", "iter", "misc"}
 NoEmit     == {}
 AllOps     == {"CtorDefault", "CtorN", "CtorNV", "CtorNO", "CtorIL", "CtorCopy", "CopyAssign", "CtorMove", "MoveAssign",
-               "Resize", "ResizeV", "ResizeO", "At", "Read", "Write", "WriteUnder", "Extract", "IterRel", "ProxySwap", "MaxSize", "Rel", "Algo"}
+               "Resize", "ResizeV", "ResizeO", "At", "Read", "Write", "WriteUnder", "Extract", "IterRel", "ProxySwap", "MaxSize", "Rel", "Algo", "ResizeFrom", "CtorFrom", "XAssign", "XCopy"}
 =============================================================================
